@@ -801,36 +801,56 @@ func (c *Ctx) phiJoin(g lin.Con, depth int) bool {
 		if c.Block == nil || !(pb == c.Block || pb.Dominates(c.Block)) {
 			continue
 		}
+		// all φ terms of the same block take their edge-i values together
+		var sibs []lin.Term
+		for _, u := range cands {
+			if up, ok := fi.terms[u].v.(*ssa.Phi); ok && up.Block() == pb {
+				sibs = append(sibs, u)
+			}
+		}
 		all := true
 		for i, pred := range pb.Preds {
 			ec := fi.CtxEdge(pred, pb)
-			var repl lin.Form
-			if ti.kind == tLen {
-				repl = ec.LenOf(phi.Edges[i])
-			} else {
-				repl = ec.Lin(phi.Edges[i])
+			repls := map[lin.Term]lin.Form{}
+			self := false
+			for _, u := range sibs {
+				ui := fi.terms[u]
+				uphi := ui.v.(*ssa.Phi)
+				var repl lin.Form
+				if ui.kind == tLen {
+					repl = ec.LenOf(uphi.Edges[i])
+				} else {
+					repl = ec.Lin(uphi.Edges[i])
+				}
+				repls[u] = repl
 			}
 			// a self-referential edge (loop) cannot be used for the join
-			if _, self := repl.Coef[t]; self {
+			for _, repl := range repls {
+				for _, u := range sibs {
+					if _, has := repl.Coef[u]; has {
+						self = true
+					}
+				}
+			}
+			if self {
 				all = false
 				break
 			}
+			substAll := func(g lin.Con) lin.Con {
+				for _, u := range sibs {
+					if _, has := g.F.Coef[u]; has {
+						g = substitute(g, u, repls[u])
+					}
+				}
+				return g
+			}
 			// facts at the obligation point, specialised to this edge
 			for _, f := range c.Facts {
-				if _, has := f.F.Coef[t]; has {
-					ec.add(substitute(f, t, repl))
-				} else {
-					ec.add(f)
-				}
+				ec.add(substAll(f))
 			}
 			vacuous := false
 			for _, ne := range c.neq {
-				d := ne[0].Sub(ne[1])
-				if k, has := d.Coef[t]; has {
-					dd := d.Clone()
-					delete(dd.Coef, t)
-					d = dd.Add(repl.Scale(k))
-				}
+				d := substAll(lin.Con{F: ne[0].Sub(ne[1])}).F
 				if kv, isK := d.ConstVal(); isK && kv.Sign() == 0 {
 					vacuous = true
 				}
@@ -838,10 +858,7 @@ func (c *Ctx) phiJoin(g lin.Con, depth int) bool {
 			if vacuous || lin.Infeasible(ec.Facts, fmLimit) {
 				continue
 			}
-			ng := g
-			if _, has := g.F.Coef[t]; has {
-				ng = substitute(g, t, repl)
-			}
+			ng := substAll(g)
 			ec.Block = nil // no further joins through facts of another point
 			if !(ec.Entails(ng) || ec.phiJoin(ng, depth+1)) {
 				all = false
